@@ -91,6 +91,9 @@ pub fn replace_global_security_splits(
     if non_global_affiliates.is_empty() {
         non_global_affiliates.push(Affiliate::default());
     }
+    // The set's iteration order differs from run to run. Sort, so that the
+    // per-affiliate splits are always emitted in the same order.
+    non_global_affiliates.sort_by(|a, b| a.id().cmp(b.id()));
 
     // Process splits in reverse order to not invalidate indices
     for &idx in split_indices.iter().rev() {
